@@ -155,6 +155,35 @@ def run(tw, tier, seed, only=None):
         except Exception as ex:
             fails.append({"function": "C08 twin", "violations": ["raised %r" % (ex,)], "tags": {}})
         cases += 1
+    # directed inputs: the canonical graph must still be the input relabelled by a bijection (arc directions kept, antiparallel arcs kept apart)
+    from networkx.algorithms.isomorphism import DiGraphMatcher
+    dgs = []
+    for edges in ([(0, 1)], [(1, 0)], [(0, 1), (1, 0)], [(0, 1), (1, 2)], [(2, 1), (1, 0)], [(0, 1), (2, 1)], [(0, 1), (1, 2), (2, 0)], [(0, 1), (1, 0), (1, 2)]):
+        for elems in ("CO", "OC", "COC", "OCC", "CCO"):
+            n = 1 + max(max(e) for e in edges)
+            if len(elems) != n:
+                continue
+            D = nx.DiGraph()
+            for i in range(n):
+                D.add_node(i, element=elems[i], charge=0, aromatic=False, hcount=0, atom_map=0, neighbors=[])
+            for u, v in edges:
+                D.add_edge(u, v, order=1, standard_order=0)
+            dgs.append(D)
+    for D in dgs:
+        for be in ("generic", "wl"):
+            cases += 1
+            try:
+                cg = canons[be].make_canonical_graph(D)
+            except Exception as ex:
+                fails.append({"function": "GraphCanonicaliser.make_canonical_graph", "backend": be, "graph": gen.graph_desc(D),
+                              "violations": ["raises: %r on a directed graph" % (ex,)], "tags": {"clause": "raises", "backend": be, "directed": "yes"}})
+                continue
+            ok = cg.is_directed() and sorted(cg.nodes()) == list(range(1, D.number_of_nodes() + 1)) and \
+                DiGraphMatcher(D, cg, node_match=lambda a, b: a == b, edge_match=lambda a, b: a == b).is_isomorphic()
+            if not ok:
+                fails.append({"function": "GraphCanonicaliser.make_canonical_graph", "backend": be, "graph": gen.graph_desc(D),
+                              "violations": ["faithful: canonical graph of a directed graph is not the input relabelled onto 1..N with all arcs and attributes"],
+                              "tags": {"clause": "faithful", "backend": be, "directed": "yes"}})
     # sound: equal signatures only for graphs isomorphic on the covered attributes (all back-ends); exact back-end: converse
     variants_pool = pool + fam
     frac = []
